@@ -26,13 +26,15 @@ pub struct Workload {
     /// kinds: 0 encaps+decaps, 1 decaps unauthorized, 2 pke round-trip, 3 header round-trip,
     ///        4 keygen + use, 5 refresh + use, 6 pke unauthorized, 7 header with aad mismatch,
     ///        8 administration on the caller's master key: rekey + prune of rights nobody encrypts for,
-    ///        9 decapsulation of a degenerate parsed encapsulation (no component / no trap)
+    ///        9 decapsulation of a degenerate parsed encapsulation (no component / no trap),
+    ///        10 key generation with a copy of the master key whose structure is ahead of its secrets,
+    ///        11 re-encapsulation of one fixed encapsulation
     /// Threads 2,3, 6,7, ... work with a second master key (same names, other attribute ids).
     pub threads: Vec<Vec<(u8, u16)>>,
 }
 
 fn strategy() -> impl Strategy<Value = Workload> {
-    proptest::collection::vec(proptest::collection::vec((0u8..10, prop_oneof![Just(0u16), 0u16..200, 0u16..5000]), 4..30), 2..=16).prop_map(|threads| Workload { threads })
+    proptest::collection::vec(proptest::collection::vec((0u8..12, prop_oneof![Just(0u16), 0u16..200, 0u16..5000]), 4..30), 2..=16).prop_map(|threads| Workload { threads })
 }
 
 /// What a call returned: Ok(Some) / Ok(None) / Err / panic.
@@ -62,6 +64,11 @@ pub struct Tenant {
     /// degenerate encapsulations that parse, with what decapsulating them returns on an instance
     /// nobody else uses
     pub degenerate: Vec<(XEnc, Alone)>,
+    /// serialized copy of the master key with one more attribute in its structure and no
+    /// `update_msk` yet, and what key generation with it returns on a private instance
+    pub unsynced: (Vec<u8>, Alone),
+    /// an encapsulation that stays re-encapsulable for the whole workload
+    pub fixed: XEnc,
 }
 
 pub struct Shared {
@@ -69,6 +76,7 @@ pub struct Shared {
     pub tenants: [Tenant; 2],
     pub tags: Mutex<HashSet<Vec<u8>>>,
     pub nonces: Mutex<HashSet<Vec<u8>>>,
+    pub secrets: Mutex<HashSet<Vec<u8>>>,
     pub progress: AtomicU64,
     pub failed: Mutex<Option<Fail>>,
 }
@@ -114,11 +122,37 @@ fn tenant(second: bool) -> Result<Tenant, Fail> {
             }
         }
     }
-    Ok(Tenant { msk: Mutex::new(msk), mpk, degenerate })
+    let unsynced = {
+        let mut m2: MasterSecretKey = de(&ser(&msk)?).map_err(|e| Fail::new("fixture-failed", e))?;
+        m2.access_structure.add_attribute(qa("DPT", "NEW"), hint(false), None).map_err(e)?;
+        let bytes = ser(&m2)?;
+        // on a helper thread: a call that waits for a lock its own thread holds never returns
+        let (tx, rx) = std::sync::mpsc::channel();
+        std::thread::spawn(move || {
+            let cc2 = Covercrypt::default();
+            let alone = match std::panic::catch_unwind(std::panic::AssertUnwindSafe(|| cc2.generate_user_secret_key(&mut m2, &AccessPolicy::parse("SEC::TOP").unwrap()))) {
+                Ok(Ok(_)) => Alone::Some,
+                Ok(Err(_)) => Alone::Err,
+                Err(_) => Alone::Panic,
+            };
+            let _ = tx.send(alone);
+        });
+        let cpu0 = proc_cpu_s();
+        let alone = match rx.recv_timeout(Duration::from_secs(20)) {
+            Ok(a) => a,
+            Err(_) if proc_cpu_s() - cpu0 < 2.0 => {
+                return Err(Fail::new("deadlock", "key generation with a master key whose structure is ahead of its secrets never returns, even on an instance nobody else uses (no CPU used for 20 s): the call blocks forever".to_string()));
+            }
+            Err(_) => return Err(Fail::new("infra-slow", "fixture call still computing after 20 s".to_string())),
+        };
+        (bytes, alone)
+    };
+    let (_, fixed) = cc.encaps(&mpk, &AccessPolicy::parse("SEC::LOW && DPT::FIN || DPT::HR").unwrap()).map_err(e)?;
+    Ok(Tenant { msk: Mutex::new(msk), mpk, degenerate, unsynced, fixed })
 }
 
 fn shared() -> Result<Shared, Fail> {
-    Ok(Shared { cc: Covercrypt::default(), tenants: [tenant(false)?, tenant(true)?], tags: Mutex::new(HashSet::new()), nonces: Mutex::new(HashSet::new()), progress: AtomicU64::new(0), failed: Mutex::new(None) })
+    Ok(Shared { cc: Covercrypt::default(), tenants: [tenant(false)?, tenant(true)?], tags: Mutex::new(HashSet::new()), nonces: Mutex::new(HashSet::new()), secrets: Mutex::new(HashSet::new()), progress: AtomicU64::new(0), failed: Mutex::new(None) })
 }
 
 fn spin(n: u16) {
@@ -150,6 +184,9 @@ struct ShView<'a> {
     msk: &'a Mutex<MasterSecretKey>,
     mpk: &'a MasterPublicKey,
     degenerate: &'a [(XEnc, Alone)],
+    unsynced: &'a (Vec<u8>, Alone),
+    fixed: &'a XEnc,
+    secrets: &'a Mutex<HashSet<Vec<u8>>>,
     tags: &'a Mutex<HashSet<Vec<u8>>>,
     nonces: &'a Mutex<HashSet<Vec<u8>>>,
     progress: &'a AtomicU64,
@@ -157,7 +194,7 @@ struct ShView<'a> {
 
 fn thread_body(sh: &Shared, t: usize, ops: &[(u8, u16)]) -> Result<(), Fail> {
     let cc = &sh.cc;
-    let sh = ShView { msk: &sh.tenants[(t / 2) % 2].msk, mpk: &sh.tenants[(t / 2) % 2].mpk, degenerate: &sh.tenants[(t / 2) % 2].degenerate, tags: &sh.tags, nonces: &sh.nonces, progress: &sh.progress };
+    let sh = ShView { msk: &sh.tenants[(t / 2) % 2].msk, mpk: &sh.tenants[(t / 2) % 2].mpk, degenerate: &sh.tenants[(t / 2) % 2].degenerate, unsynced: &sh.tenants[(t / 2) % 2].unsynced, fixed: &sh.tenants[(t / 2) % 2].fixed, secrets: &sh.secrets, tags: &sh.tags, nonces: &sh.nonces, progress: &sh.progress };
     let pol_auth = AccessPolicy::parse(if t % 2 == 0 { "SEC::TOP && DPT::FIN" } else { "SEC::LOW && DPT::FIN" }).unwrap();
     let pol_enc = AccessPolicy::parse(if t % 2 == 0 { "SEC::TOP && DPT::FIN" } else { "DPT::FIN && SEC::LOW || DPT::FIN" }).unwrap();
     let pol_other = AccessPolicy::parse("DPT::HR").unwrap();
@@ -244,6 +281,31 @@ fn thread_body(sh: &Shared, t: usize, ops: &[(u8, u16)]) -> Result<(), Fail> {
                     if poisoned {
                         return Err(Fail::new("instance-poisoned-by-one-call", format!("{}: the call returned {got:?} and left the instance's lock poisoned: every later call of every thread fails", ctx("decaps of a degenerate encapsulation"))));
                     }
+                }
+            }
+            10 => {
+                // a copy of the master key whose structure is one attribute ahead: the call must
+                // return (what it returns alone), not wait for anything
+                let mut m: MasterSecretKey = de(&sh.unsynced.0).map_err(|e| Fail::new("fixture-failed", e))?;
+                let got = match cc.generate_user_secret_key(&mut m, &AccessPolicy::parse("SEC::TOP").unwrap()) {
+                    Ok(_) => Alone::Some,
+                    Err(_) => Alone::Err,
+                };
+                if got != sh.unsynced.1 && sh.unsynced.1 != Alone::Panic {
+                    return Err(Fail::new("concurrent-result-differs:keygen-unsynced", format!("{}: returned {got:?}, alone {:?}", ctx("key generation with a master key whose structure is ahead"), sh.unsynced.1)));
+                }
+            }
+            11 => {
+                let r = {
+                    let msk = sh.msk.lock().unwrap();
+                    cc.recaps(&msk, sh.mpk, sh.fixed)
+                };
+                let (s, x) = r.map_err(|e| Fail::new("concurrent-call-failed:recaps", format!("{}: {}", ctx("recaps"), short_err(&e))))?;
+                fresh(sh.tags, &tag_of(&x)?, "tag")?;
+                fresh(sh.secrets, &s[..], "re-encapsulated secret")?;
+                match cc.decaps(&my_key, &x) {
+                    Ok(Some(k)) if k == s => {}
+                    other => return Err(Fail::new("concurrent-result-differs:decaps-of-recaps", format!("{}: {:?}", ctx("decaps of a re-encapsulation"), other.map(|o| o.is_some()).map_err(|e| short_err(&e))))),
                 }
             }
             8 => {
@@ -364,15 +426,19 @@ pub fn run(ctx: &Ctx, col: &Collector) -> Meta {
                 col.class_n("ops-executed", kinds.len() as u64);
                 col.class(&format!("threads:{}", if nthreads >= 8 { "8-16" } else if nthreads >= 4 { "4-7" } else { "2-3" }));
                 if nthreads >= 4 && sym >= 2 {
-                    let mut multiset = [0u32; 10];
+                    let mut multiset = [0u32; 12];
                     for k in &kinds {
                         multiset[*k as usize] += 1;
                     }
                     col.class("nontrivial-workloads");
                     if col.nontrivial(&(nthreads, multiset)) {
-                        col.sample(|| json!({"threads": nthreads, "ops_per_kind": multiset, "kinds": "0 encaps+decaps, 1 unauthorized decaps, 2 pke, 3 header, 4 keygen, 5 refresh, 6 pke unauthorized, 7 header wrong aad, 8 rekey+prune, 9 degenerate decaps"}));
+                        col.sample(|| json!({"threads": nthreads, "ops_per_kind": multiset, "kinds": "0 encaps+decaps, 1 unauthorized decaps, 2 pke, 3 header, 4 keygen, 5 refresh, 6 pke unauthorized, 7 header wrong aad, 8 rekey+prune, 9 degenerate decaps, 10 keygen with an unsynced master key, 11 recaps"}));
                     }
                 }
+            }
+            RunResult::Done(Err(f)) if f.signature.starts_with("infra") => {
+                col.note(format!("generator unhealthy: {} (inconclusive)", f.message));
+                break;
             }
             RunResult::Done(Err(f)) => {
                 let case = serde_json::to_value(&w).unwrap();
@@ -402,7 +468,7 @@ pub fn run(ctx: &Ctx, col: &Collector) -> Meta {
     }
     Meta {
         level: "exploration",
-        rule: "generated workloads of 2-16 threads x 4-30 operations (encaps+decaps, unauthorized decaps, PKE encrypt/decrypt, header generate/decrypt with matching and wrong authentication data, key generation, refresh, rekey + prune on the caller's master key, decapsulation of parsed encapsulations without component / without trap) with generated spin / yield jitter, all threads released by a barrier on one shared Covercrypt instance (two master keys declaring the same names with different attribute ids, each behind the caller's own mutex and used by half of the threads; distinct key objects per thread); every result must equal the sequential oracle, tags and AEAD nonces must be distinct across threads, no call may panic (poisoned lock), and the workload must finish: no progress for 8 s with no CPU use is a deadlock. Non-trivial = workload with >= 4 threads and >= 2 PKE / header operations; distinct by (thread count, multiset of operation kinds)".into(),
+        rule: "generated workloads of 2-16 threads x 4-30 operations (encaps+decaps, unauthorized decaps, PKE encrypt/decrypt, header generate/decrypt with matching and wrong authentication data, key generation, refresh, rekey + prune on the caller's master key, decapsulation of parsed encapsulations without component / without trap, key generation with a copy of the master key whose structure is ahead of its secrets, re-encapsulation of one fixed encapsulation) with generated spin / yield jitter, all threads released by a barrier on one shared Covercrypt instance (two master keys declaring the same names with different attribute ids, each behind the caller's own mutex and used by half of the threads; distinct key objects per thread); every result must equal the sequential oracle, tags and AEAD nonces must be distinct across threads, no call may panic (poisoned lock), and the workload must finish: no progress for 8 s with no CPU use is a deadlock. Non-trivial = workload with >= 4 threads and >= 2 PKE / header operations; distinct by (thread count, multiset of operation kinds)".into(),
         exhaustive: false,
         assumptions: vec!["schedules are sampled under the real OS scheduler (contention + jitter), not owned: a defect confined to one rare interleaving can be missed".into()],
     }
